@@ -190,7 +190,7 @@ namespace xtl
             }
             else  // same types
             {
-                if (this->vtable != nullptr)
+                if (this->vtable != nullptr && this != &rhs)
                     this->vtable->swap(this->storage, rhs.storage);
             }
         }
